@@ -24,6 +24,12 @@ type Space struct {
 	// ignore-inconsistency variants on consistent histories) are evaluated at
 	// every state of depth <= ExtraDepth; all other variants at every state.
 	ExtraDepth int
+
+	// Strip: the space also runs the variants in which some elements come
+	// without a commit time. Only for commit-time spaces whose upload instants
+	// are whole seconds more than a threshold apart (then timestamp and commit
+	// instant of every version coincide and the ground truth stays exact).
+	Strip bool
 }
 
 // keyPrefix is the part of a violation key that names the regime and the
@@ -46,6 +52,21 @@ func (s *Space) label() string {
 	}
 	if s.Interlopers {
 		l += "/interlopers"
+	}
+	if !s.Start.IsZero() {
+		l += "/start" + s.Start.UTC().Format("2006-01-02T15:04:05")
+	}
+	if s.FirstChangeset != 0 {
+		l += fmt.Sprintf("/changesets%d+k", s.FirstChangeset)
+	}
+	if s.LocMode != 0 {
+		l += "/zero-locations"
+	}
+	if s.ReverseWays {
+		l += "/reversing-child-ways"
+	}
+	if s.Strip {
+		l += "/partial-commit-times"
 	}
 	return l
 }
